@@ -39,7 +39,9 @@ class CSVSheetReader(AbstractSheetReader):
     def __init__(self, path):
         self.name = path
         self._sheets = {
-            f.stem: Sheet(reader=self, name=f.stem, table=load_csv(f))
+            f.stem: Sheet(
+                reader=self, name=f.stem, table=drop_empty_rows(load_csv(f))
+            )
             for f in Path(path).glob("*.csv")
         }
 
@@ -52,7 +54,9 @@ class JSONSheetReader(AbstractSheetReader):
         for name, content in data["sheets"].items():
             table = tablib.Dataset()
             table.dict = content
-            self._sheets[name] = Sheet(reader=self, name=name, table=table)
+            self._sheets[name] = Sheet(
+                reader=self, name=name, table=drop_empty_rows(table)
+            )
 
 
 class XLSXSheetReader(AbstractSheetReader):
@@ -135,7 +139,7 @@ class GoogleSheetReader(AbstractSheetReader):
         for row in content[1:]:
             table.append(self._prepare_row(row, len(table.headers)))
 
-        return table
+        return drop_empty_rows(table)
 
     def _prepare_row(self, row, max_cols):
         return pad(
@@ -195,6 +199,18 @@ class CompositeSheetReader:
 def load_csv(path):
     with open(path, mode="r", encoding="utf-8") as csv:
         return tablib.import_set(csv, format="csv")
+
+
+def drop_empty_rows(table):
+    """
+    A row without content in any cell is not data, in any format: the XLSX reader
+    has always omitted such rows.
+    """
+    for index in reversed(range(table.height)):
+        if all(cell is None or cell == "" for cell in table[index]):
+            del table[index]
+
+    return table
 
 
 def load_json(path):
